@@ -506,8 +506,39 @@ def _roots(fn, l):
     return out
 
 
+def r02e(ctx, P, rid="R02.e"):
+    ctx.rule(rid, "PAIR (a shortened log is made durable): in every function of the crate that shortens a storage file "
+                  "(StorageFile::set_len), every path from the set_len call to a success return passes a sync_all call. Otherwise a "
+                  "rollback (or a batch rewind, or the torn-tail cut) that returned Ok can be undone by a power loss: the discarded "
+                  "records, already durable from an earlier Drop / commit attempt, come back and are replayed into the next commit")
+    from sa.prog import ok_sites, return_sites
+    n = 0
+    for q, f in sorted(P.fns.items()):
+        if f.crate != "searchlite_core" or is_test_or_bench(f):
+            continue
+        cuts = [b for b, t in f.calls() if callee_of(t) == "searchlite_core::storage::StorageFile::set_len"]
+        if not cuts:
+            continue
+        ctx.saw(f)
+        syncs = [b for b, t in f.calls() if callee_of(t).endswith(("StorageFile::sync_all", "File::sync_all", "File::sync_data"))]
+        rets = [s_ for s_, k in return_sites(f) if k in ("ok", "other", "tail")] or \
+            [Site(f, b, -1) for b in f.reachable() if f.blocks[b]["term"]["k"] == "return"]
+        for cb in cuts:
+            n += 1
+            leak = None
+            for r in rets:
+                if r.b in f.reachable_from(cb) and f.cfg_path(cb, r.b, avoid=syncs) is not None and r.b not in syncs:
+                    leak = r
+            ctx.ob(rid, "%s:%s:set_len-then-sync" % (rid, f.short), leak is None,
+                   "the cut at %s is followed by sync_all on every path to a success return" % Site(f, cb).loc() if leak is None else
+                   "%s shortens the file at %s and can return success at %s without sync_all: the shorter length is not durable"
+                   % (f.short, Site(f, cb).loc(), leak.loc()), Site(f, cb).loc())
+    ctx.floor(rid, n, 2, "set_len calls (Wal::truncate, Wal::truncate_to)")
+
+
 def run(ctx, progs):
     P = progs.get("default")
+    r02e(ctx, P)
     rep = r02a(ctx, P)
     if rep is not None:
         r02b(ctx, P, rep)
